@@ -20,8 +20,9 @@
 (*                                 version ids of the networks it was given)  *)
 (*   ds_start | ds_add obs         EpisodeDataset.start_episode / add_sample  *)
 (*   collect_end rows eps pv vv    what the call returned (flattened rows)    *)
-(*   update_begin kind n rows pv vv    update_ppo / train_policy_* /          *)
-(*                                     train_value_function entered           *)
+(*   update_begin kind n ne rows pv vv  update_ppo / train_policy_* /         *)
+(*                                     train_value_function entered (epochs   *)
+(*                                     or gradient steps, n_envs argument)    *)
 (*   loss kind rows                a loss / gradient function was evaluated   *)
 (*   opt kind before after         an optimiser was stepped                   *)
 (*   update_end kind dp dv pv vv   the update call returned (deltas of the    *)
@@ -161,7 +162,8 @@ TUpdateBegin ==
          bad == Failing({<<"UpdateAfterCollection", pc \in {"collect", "sampling"}>>,
                          <<"PhaseOrder", pc \notin {"collect", "sampling"} /\ ~(atPhase /\ P.name = E.kind)>>,
                          <<"UpdateOnCollected", E.rows # rows>>,
-                         <<"UpdateArgs", atPhase /\ P.name = E.kind /\ E.n # P.epochs>>,
+                         (* epochs / gradient steps as configured; update_ppo is told how many environments the batch holds *)
+                         <<"UpdateArgs", atPhase /\ P.name = E.kind /\ (E.n # P.epochs \/ (E.ne # 0 /\ E.ne # cfg.nenvs))>>,
                          <<"ParamsChangeOnlyByOptimiser", VersionsMoved>>}) IN
      IF bad # {} THEN Reject(bad)
      ELSE /\ inUpd' = E.kind /\ uph' = ph /\ mark' = <<psteps, vsteps>> /\ Advance
